@@ -1,3 +1,4 @@
+import XsVerif.Model.NsMapper
 /-
   Model of the error paths of validation errors (C19):
   `etree_getpath(elem, root, namespaces, relative=False, add_position=True)`
@@ -79,5 +80,23 @@ def selectAbs (t : T) (p : String × List Step) : List (List Nat) :=
 /-- groups.py:1019-1087: the index recorded with a children error is the index of the offending
     child among the element's children, or `len(children)` for "content ended too early". -/
 def indexDesignates (nChildren index : Nat) : Bool := index ≤ nChildren
+
+end XsVerif.Paths
+
+namespace XsVerif.Paths
+open XsVerif.NsMapper
+
+/-- `get_prefixed_qname(qname, namespaces, use_empty=True)` (utils/qnames.py:97-123): how a tag is
+    written into the path with the namespace map of the error. -/
+def renderName (ns : Map) (q : QN) : PName :=
+  if q.ns = "" then .loc q.loc
+  else if ns.isEmpty then .braced q.ns q.loc
+  else match (ns.filter fun e => e.2 = q.ns).map (·.1) with
+    | [] => .braced q.ns q.loc
+    | p :: rest =>
+      if p ≠ "" then .pre p q.loc
+      else match rest with
+        | p2 :: _ => .pre p2 q.loc
+        | [] => .loc q.loc
 
 end XsVerif.Paths
